@@ -424,10 +424,13 @@ def stepQ (ff : UInt64 → Option Bytes) (d : DV) (q : Q) (obs : String) : Strin
     match p1, p2 with
     | none, none => if div.isEmpty then (if isUnmodelled mImpl || isUnmodelled mPlain || isUnmodelled mSpec then "OK model-declined-float-or-number-text" else "OK") else s!"DIVERGE model={(d1.getD (d2.getD ""))}"
     | some f, _ =>
-      let k := knownModes.find? (fun km => sRes (q.eval km.2 ff (wrap d)) == direct)
-      (match k with
+      let ks := knownModes.map (fun km => (km.1, sRes (q.eval km.2 ff (wrap d))))
+      (match ks.find? (fun kr => kr.2 == direct) with
        | some (key, _) => s!"KNOWN {key} {f}{div}"
-       | none => s!"PROPFAIL {f}{div}")
+       | none =>
+         -- a recorded deviation is involved whose consequence the model declines to compute
+         if ks.any (fun kr => isUnmodelled kr.2) then s!"OK model-declined-float-or-number-text{div}"
+         else s!"PROPFAIL {f}{div}")
     | none, some f => s!"PROPFAIL {f}{div}"
   | _ => "BADOP obs"
 
